@@ -37,6 +37,7 @@ def pdfdoc_reference() -> List[int]:
 
 
 def run(model: Model, rep: Report) -> None:
+    _round8(model, rep)
     rep.explanation = (
         "C17: decides the structural part: the PDFDocEncoding table equals Annex D.2 entry by entry and the UTF-16BE byte-order mark is tested "
         "first; the label-style dispatch maps D/R/r/A/a/none to the right formatter with the spec'd defaults; outline traversal yields the entry, "
@@ -158,3 +159,13 @@ def _numerals(model: Model, rep: Report) -> None:
     fa = model.func("pdfminer.utils.format_int_alpha")
     s2 = "".join(unparse(fa.node).split())
     r5.check("value,remainder=divmod(value-1,len(string.ascii_lowercase))" in s2.replace("(value,remainder)", "value,remainder") and "result.append(string.ascii_lowercase[remainder])" in s2 and "result.reverse()" in s2, site(fa), fa.qualname, "letters: repeated divmod(value - 1, 26), least significant letter first, reversed at the end", why="changed")
+
+
+def _round8(model: Model, rep: Report) -> None:
+    r7 = rep.rule("C17-R7", "BIND", "get_dest looks the name up as it was given, in the name tree and in the PDF 1.1 /Dests dictionary alike (the caller's str or bytes is not re-encoded: name-tree keys are bytes, /Dests keys are str)", 1)
+    f = model.func("pdfminer.pdfdocument.PDFDocument.get_dest")
+    p0 = f.params[1]
+    stores = [n for n in walk_no_nested(f.node) if isinstance(n, ast.Name) and isinstance(n.ctx, ast.Store) and n.id == p0]
+    call = [c for c in walk_no_nested(f.node) if isinstance(c, ast.Call) and (dotted(c.func) or "") == "self.lookup_name"]
+    ok = not stores and bool(call) and len(call[0].args) == 2 and unparse(call[0].args[1]) == p0
+    r7.check(ok, site(f, stores[0]) if stores else site(f), f.qualname, f"self.lookup_name('Dests', {p0}) with the parameter unchanged; no assignment to {p0}", why="the name is converted before the lookups: a str destination of a PDF 1.1 document is then searched as bytes in a dictionary whose keys are str and is reported as not found")
